@@ -1,5 +1,15 @@
 """Entry point: ./check Cnn [--tier quick|thorough] [--replay file] | --setup"""
 import argparse
+import os
+import sys
+
+# Backend configuration (DESIGN.md section 1 / C03): pycardano's decoder patches only reach the pure-Python cbor2
+# decoder.  Checks run the implementation under the pure-Python backend (the configuration the patches are written
+# for) unless VERIF_CBOR=cext; the C-extension configuration is exercised in sub-processes by the checks that
+# quantify over back ends (C03, and secondary passes of C01 / C18).
+if os.environ.get("VERIF_CBOR", "pure") == "pure":
+    sys.modules["_cbor2"] = None  # makes `from _cbor2 import *` fail, cbor2 keeps its pure-Python implementation
+
 import importlib
 import json
 import os
